@@ -290,8 +290,11 @@ func (s *Scope) newGraphNode(wrapped interface{}, orders map[*Scope]int) {
 	}
 }
 
-func (s *Scope) cycleDetectedError(cycle []int) error {
+func (s *Scope) cycleDetectedError(cycle []int, extra ...*constructorNode) error {
 	var path []cycleErrPathEntry
+	for _, n := range extra {
+		path = append(path, cycleErrPathEntry{Key: key{t: n.CType()}, Func: n.Location()})
+	}
 	for _, n := range cycle {
 		if n, ok := s.gh.Lookup(n).(*constructorNode); ok {
 			path = append(path, cycleErrPathEntry{
